@@ -1,4 +1,5 @@
 """C25 — DeltaSTN decides temporal consistency exactly."""
+import signal
 import warnings
 from fractions import Fraction
 
@@ -23,11 +24,13 @@ ASSUMPTIONS = ["epsilon = 0 (the class default); bounds are int or Fraction (no 
                "(the class never inspects an event beyond ==/hash)",
                "distances / model values are compared only while the network is consistent (the property says nothing "
                "about them afterwards); dict-ordered output is sorted by event name",
-               "the model's while-loop takes fuel (E+2)(A+2)^2 pops per add; out-of-fuel would be reported as a disagreement"]
+               "the model's while-loop is fuelled; termination for some fuel and independence of the result from the fuel are "
+               "proved (C25_terminates, C25_fuel_irrelevant); the driver uses (E+2)(A+2)^2 pops per add (E events, A adds in "
+               "the case) and an insufficient fuel would be reported as a disagreement (`out-of-fuel`)",
+               "every run of the real code is bounded by a 10 s watchdog; exceeding it counts as 'no verdict reported'"]
 MODELLED = ["modelled by hand (tied by correspondence): DeltaSimpleTemporalNetwork.add/_is_subsumed/_inc_check/copy_stn/"
             "check_stn/get_stn_model/distances/get_constraints; Python dict/deque/Fraction semantics; sharing of immutable "
-            "DeltaNeighbors cells between copies is modelled as sharing of immutable list values",
-            "termination of _inc_check is not proved (the model loop is fuelled)"]
+            "DeltaNeighbors cells between copies is modelled as sharing of immutable list values"]
 BUDGET_S = {"quick": 60, "thorough": 700}
 
 NAMES = ["a", "b", "c", "d", "e", "f", "g", "h"]
@@ -68,7 +71,39 @@ def leaf_out(stn):
     return "S" + ",".join(rs(d[k]) for k in sorted(d.keys()))
 
 
+class NonTermination(Exception):
+    pass
+
+
+class watchdog:
+    """`_inc_check` is a while-loop: a broken implementation may never return.  Every run of the real code is
+    bounded by WATCHDOG_S seconds of wall time (normal cases take milliseconds)."""
+
+    def _fire(self, *a):
+        raise NonTermination()
+
+    def __enter__(self):
+        self.old = signal.signal(signal.SIGALRM, self._fire)
+        signal.setitimer(signal.ITIMER_REAL, WATCHDOG_S)
+
+    def __exit__(self, *a):
+        signal.setitimer(signal.ITIMER_REAL, 0)
+        signal.signal(signal.SIGALRM, self.old)
+        return False
+
+
+WATCHDOG_S = 10
+
+
 def impl(payload):
+    try:
+        with watchdog():
+            return _impl(payload)
+    except NonTermination:
+        return ["error", "no-answer-within-%ds" % WATCHDOG_S]
+
+
+def _impl(payload):
     try:
         if payload[0] == "hist":
             nets = [DeltaSimpleTemporalNetwork()]
@@ -168,6 +203,16 @@ def snapshot(stn):
 
 
 def oracle(payload):
+    try:
+        with watchdog():
+            return _oracle(payload)
+    except NonTermination:
+        return "an operation on the network did not return within %d s (no verdict is ever reported)" % WATCHDOG_S
+    except (KeyError, AttributeError, TypeError, IndexError) as e:
+        return f"the network raised {type(e).__name__}({e}) on a legal history"
+
+
+def _oracle(payload):
     if payload[0] == "hist":
         nets, lines = [DeltaSimpleTemporalNetwork()], [[]]
         for step, op in enumerate(payload[1:]):
@@ -416,12 +461,13 @@ MANIFEST = {
                    "for every insertion history with rational bounds by invariants of the relaxation loop: consistent verdict => "
                    "the reported model satisfies every inserted constraint (subsumed ones included), is non-negative and is the "
                    "pointwise least non-negative solution; inconsistent verdict => no assignment satisfies the inserted "
-                   "constraints; every network of a history with copies equals a fresh network fed with its own lineage only. "
+                   "constraints; every network of a history with copies equals a fresh network fed with its own lineage only; "
+                   "_inc_check terminates on every history (lattice/potential argument) and the result is independent of the fuel. "
                    "The model is tied to the code by a differential check (exhaustive short insertion sequences modulo renaming, "
                    "random rational histories with copies) plus a Floyd-Warshall oracle of the property on the real class."),
-    "level_note": ("Termination of _inc_check is NOT proved: the model loop is fuelled and all theorems are about runs that return "
-                   "(C25_terminates_full is stated, unproved). Trusted: Lean kernel; axioms propext, Classical.choice, Quot.sound; "
-                   "the correspondence harness. Modelled not verified: Python dict/deque/Fraction; epsilon fixed to 0."),
+    "level_note": ("All clauses proved at full strength for the model (no size bounds, termination included). Trusted: Lean kernel; "
+                   "axioms propext, Classical.choice, Quot.sound; the correspondence harness. Modelled not verified: Python "
+                   "dict/deque/Fraction; epsilon fixed to 0 (the class default); floats excluded."),
     "technique": "Lean 4 proof over a hand-written executable model + model/code correspondence",
     "design_ref": "DESIGN.md §5 C25",
 }
